@@ -253,3 +253,313 @@ Section ResetTopCopy.
     - destruct H as [Hs Hoth]. split; [exact Hs|]. intros i Hi. rewrite Hoth by lia. now apply Hsame.
   Qed.
 End ResetTopCopy.
+
+(* ------------------------------------------------------------------ *)
+(** * transform(_inplace=True, a=f, b=g, ...) as a whole *)
+
+Definition transform_all (ct : ctable) (rec : call -> M val) (l : loc) (kwfn : list (aid * fn)) : M unit :=
+  iterM (fun p => cur <- getattr_default ct l (fst p) ;;
+                  t <- apply_fn (snd p) cur ;;
+                  if is_missing t then ret tt
+                  else rec (KSetAttr l (fst p) t false false) ;;; ret tt) kwfn.
+
+(* a per-attribute transform the theorem covers, in the state whose dict is d *)
+Definition kwfn_ok (k : cls) (d : list (aid * val)) (p : aid * fn) : bool :=
+  match lookup_attr k (fst p) with
+  | Some sp => (ty_depth (a_ty sp) <? FUEL) && negb (ty_is_collection (a_ty sp)) &&
+               match a_prepare sp with Some f => scalar_fn f | None => true end &&
+               scalar_fn (snd p) && vscalar (cur_val (fst p) d k)
+  | None => false
+  end.
+
+Definition spec_kwfn_step (ct : ctable) (h0 : list obj) (x : aval) (p : aid * fn) : sres aval :=
+  cur <~ read_attr ct h0 x (fst p) ;;
+  t <~ afn (snd p) cur ;;
+  if a_is_missing t then SOk x else sexec ct h0 SFUEL (SSetAttr x (fst p) t).
+
+Lemma transform_all_cons ct rec l a0 f0 t s :
+  transform_all ct rec l ((a0, f0) :: t) s =
+  (cur <- getattr_default ct l a0 ;; v <- apply_fn f0 cur ;;
+   (if is_missing v then ret tt else rec (KSetAttr l a0 v false false) ;;; ret tt) ;;;
+   transform_all ct rec l t) s.
+Proof.
+  unfold transform_all. cbn [iterM fst snd]. rewrite !bind_assoc.
+  unfold bind. destruct (getattr_default ct l a0 s) as [[cur|e] s1]; [|reflexivity].
+  destruct (apply_fn f0 cur s1) as [[v|e] s2]; reflexivity.
+Qed.
+
+Lemma cur_val_assoc_set a0 v' a1 d k :
+  cur_val a1 (assoc_set a0 v' d) k = if a0 =? a1 then v' else cur_val a1 d k.
+Proof. unfold cur_val. rewrite assoc_assoc_set. destruct (a0 =? a1); reflexivity. Qed.
+
+Lemma kwfn_ok_assoc_set k d a0 v' p : vscalar v' = true -> kwfn_ok k d p = true -> kwfn_ok k (assoc_set a0 v' d) p = true.
+Proof.
+  intros Hv H. unfold kwfn_ok in *. destruct (lookup_attr k (fst p)); [|discriminate].
+  apply andb_true_iff in H. destruct H as [H Hc]. rewrite H. cbn [andb].
+  rewrite cur_val_assoc_set. destruct (a0 =? fst p); auto.
+Qed.
+
+Section TransformTop.
+  Variable ct : ctable.
+  Variable h0 : list obj.
+  Variables (l : loc) (c : cid) (k : cls).
+  Hypothesis Hc : lookup_cls ct c = Some k.
+  Hypothesis Hfz : c_frozen k = false.
+  Hypothesis Hni : no_inval k.
+
+  Lemma getattr_default_run a sp d s :
+    nth_error (heap s) l = Some (OInst c d) -> lookup_attr k a = Some sp ->
+    getattr_default ct l a s = (Ok (cur_val a d k), s).
+  Proof.
+    intros Hl Ha. unfold getattr_default, cur_val.
+    rewrite (bind_ok _ _ _ _ _ (read_inst_at l s c d Hl)). cbn [fst snd].
+    destruct (assoc a d); [reflexivity|]. now rewrite (bind_ok _ _ _ _ _ (cls_of_at ct c s k Hc)).
+  Qed.
+
+  Lemma spec_kwfn_step_cur a0 g0 sp d s :
+    nth_error (heap s) l = Some (OInst c d) -> NoDup (map fst d) -> lookup_attr k a0 = Some sp ->
+    vscalar (cur_val a0 d k) = true ->
+    spec_kwfn_step ct h0 (absv (heap s) (VRef l)) (a0, g0) =
+    (t <~ afn g0 (abs0 (cur_val a0 d k)) ;;
+     if a_is_missing t then SOk (absv (heap s) (VRef l))
+     else sexec ct h0 SFUEL (SSetAttr (absv (heap s) (VRef l)) a0 t)).
+  Proof.
+    intros Hl Hd Ha0 Hcur. unfold spec_kwfn_step. cbn [fst snd].
+    rewrite (absv_recv l c d s Hl).
+    now rewrite (read_attr_cur ct h0 a0 c d k sp s Hc Ha0 Hd (vscalar_nonref _ Hcur)).
+  Qed.
+
+  Lemma transform_all_refines f0 : forall kwfn d s,
+    nth_error (heap s) l = Some (OInst c d) -> NoDup (map fst d) ->
+    aok (absv (heap s) (VRef l)) = true -> fail_at s = None ->
+    forallb (kwfn_ok k d) kwfn = true ->
+    match transform_all ct (exec ct (S (S f0))) l kwfn s with
+    | (Ok _, s') =>
+        sfold (spec_kwfn_step ct h0) kwfn (absv (heap s) (VRef l)) = SOk (absv (heap s') (VRef l)) /\
+        (forall i, i <> l -> nth_error (heap s') i = nth_error (heap s) i) /\
+        length (heap s') = length (heap s)
+    | (Err e, s') =>
+        sfold (spec_kwfn_step ct h0) kwfn (absv (heap s) (VRef l)) = SErr e /\
+        (forall i, i <> l -> nth_error (heap s') i = nth_error (heap s) i) /\
+        length (heap s') = length (heap s)
+    end.
+  Proof.
+    induction kwfn as [|[a0 g0] kwfn IH]; intros d s Hl Hd Hok Hfa Hkws.
+    - unfold transform_all. cbn [iterM sfold]. unfold ret. auto.
+    - cbn [forallb] in Hkws. apply andb_true_iff in Hkws. destruct Hkws as [Hk0 Hkws].
+      unfold kwfn_ok in Hk0. cbn [fst snd] in Hk0.
+      destruct (lookup_attr k a0) as [sp|] eqn:Ha0; [|discriminate].
+      apply andb_true_iff in Hk0. destruct Hk0 as [Hk0 Hcur].
+      apply andb_true_iff in Hk0. destruct Hk0 as [Hk0 Hg0].
+      apply andb_true_iff in Hk0. destruct Hk0 as [Hk0 Hp0].
+      apply andb_true_iff in Hk0. destruct Hk0 as [Hty Hnc].
+      apply Nat.ltb_lt in Hty. apply negb_true_iff in Hnc.
+      assert (Hp : match a_prepare sp with Some f => scalar_fn f = true | None => True end)
+        by (destruct (a_prepare sp); auto).
+      rewrite transform_all_cons. cbn [sfold].
+      rewrite (bind_ok _ _ _ _ _ (getattr_default_run a0 sp d s Hl Ha0)).
+      (* the specification reads the same current value *)
+      rewrite (spec_kwfn_step_cur a0 g0 sp d s Hl Hd Ha0 Hcur).
+      pose proof (apply_fn_scalar g0 (cur_val a0 d k) s Hfa Hg0 Hcur) as Hap.
+      destruct (afn g0 (abs0 (cur_val a0 d k))) as [nv|e| |]; try contradiction.
+      + destruct Hap as [v' [Hrun [-> Hv']]]. rewrite (bind_ok _ _ _ _ _ Hrun). cbn [sbind].
+        rewrite (not_amissing_scalar v' Hv').
+        assert (is_missing v' = false) as -> by (destruct v'; cbn [vscalar] in Hv'; try discriminate; reflexivity).
+        cbv beta iota. rewrite bind_assoc. unfold bind at 1.
+        rewrite exec_S_set.
+        rewrite (setattr_unfold ct _ l a0 c d k sp v' false (ticked s) Hl Hc Ha0).
+        assert (Hstep : sexec ct h0 SFUEL (SSetAttr (absv (heap s) (VRef l)) a0 (abs0 v'))
+                        = spec_core ct a0 c d sp s v').
+        { pose proof (spec_kw_step_scalar ct h0 l c k Hc Hni a0 sp d s v' Hl Ha0 Hnc Hp Hv') as E.
+          unfold spec_kw_step in E. cbn [fst snd in_names existsb orb] in E.
+          rewrite (not_amissing_scalar v' Hv') in E. exact E. }
+        rewrite Hstep. clear Hstep.
+        assert (Hpass : negb (false || initializing d) && c_frozen k = false) by (rewrite Hfz; apply andb_false_r).
+        pose proof (assign_scalar_closed ct l a0 c d k sp s Hl Hc Ha0 Hd Hok Hni Hty Hnc Hp f0 false v' (ticked s)
+                      Hpass (heap_ticked s) Hfa Hv') as H.
+        destruct (assign_gen ct l a0 sp (exec ct (S f0)) false v' (ticked s)) as [[r|e] s1].
+        * destruct H as [_ [w [s2 [Hh2 [Hf2 [Hw [-> [Hs Habs]]]]]]]].
+          rewrite Hs. cbn [sbind]. rewrite <- Habs. rewrite bind_ret.
+          destruct (guard_after_store l a0 c d s Hl Hd Hok s2 w Hh2 Hw) as [Hl' [Hd' [Hok' [Hoth Hlen]]]].
+          assert (Hkws' : forallb (kwfn_ok k (assoc_set a0 w d)) kwfn = true).
+          { apply forallb_forall. intros p Hp'. apply kwfn_ok_assoc_set; auto.
+            rewrite forallb_forall in Hkws. now apply Hkws. }
+          pose proof (IH _ _ Hl' Hd' Hok' (eq_trans (fail_at_upd s2 l _) Hf2) Hkws') as IH'.
+          destruct (transform_all ct (exec ct (S (S f0))) l kwfn (upd s2 l (OInst c (assoc_set a0 w d)))) as [[u|e] s'].
+          -- destruct IH' as [E1 [E2 E3]]. split; [exact E1|]. split; [|congruence].
+             intros i Hi. rewrite E2 by exact Hi. now apply Hoth.
+          -- destruct IH' as [E1 [E2 E3]]. split; [exact E1|]. split; [|congruence].
+             intros i Hi. rewrite E2 by exact Hi. now apply Hoth.
+        * destruct H as [Hs [Hh _]]. rewrite Hs. cbn [sbind]. split; [reflexivity|]. split; [|now rewrite Hh].
+          intros i _. now rewrite Hh.
+      + rewrite (bind_err _ _ _ _ _ Hap). cbn [sbind]. split; [reflexivity|]. split; auto.
+  Qed.
+End TransformTop.
+
+
+Lemma abs_eq_scalar n h w v : vscalar v = true -> abs (S n) h w = abs0 v -> w = v.
+Proof.
+  intros Hv H. destruct w as [| | | | | | | |lx].
+  1-8: (destruct v; cbn [vscalar] in Hv; try discriminate; cbn [abs abs0] in H; congruence).
+  cbn [abs] in H. destruct (nth_error h lx) as [[xs|kvs|xs|c0 d0]|];
+    destruct v; cbn [vscalar] in Hv; try discriminate; cbn [abs0] in H; discriminate.
+Qed.
+
+(* the deep copy of a flat receiver: the twin reads the same scalar current values *)
+Lemma copy_twin_dict ct l c d k s :
+  nth_error (heap s) l = Some (OInst c d) -> lookup_cls ct c = Some k -> NoDup (map fst d) ->
+  flat_fields (heap s) d -> c_dnc k = false -> fail_at s = None -> c_post_copy k = None ->
+  exists l' d' s2,
+    deepcopy ct (VRef l) s = (Ok (VRef l'), s2) /\ length (heap s) <= l' /\
+    nth_error (heap s2) l' = Some (OInst c d') /\ NoDup (map fst d') /\
+    absv (heap s2) (VRef l') = absv (heap s) (VRef l) /\ aok (absv (heap s2) (VRef l')) = true /\
+    fail_at s2 = None /\
+    (forall i, i < length (heap s) -> nth_error (heap s2) i = nth_error (heap s) i) /\
+    (forall a0, vscalar (cur_val a0 d k) = true -> cur_val a0 d' k = cur_val a0 d k).
+Proof.
+  intros Hl Hc Hd Hflat Hdnc Hfa Hpc.
+  destruct (copy_twin ct l c d k s Hl Hc Hd Hflat Hdnc Hfa Hpc)
+    as [l' [d' [s2 [Hdc [Hfresh [Hcell [Hd' [Habs [Hok' [Hfa2 Hsame]]]]]]]]]].
+  exists l', d', s2. repeat (split; [assumption|]).
+  intros a0 Hcur.
+  pose proof Habs as E. rewrite (absv_recv l' c d' s2 Hcell), (absv_recv l c d s Hl) in E.
+  apply (f_equal (fun x => match x with AInst _ fl => fl | _ => [] end)) in E. cbv beta iota in E.
+  assert (Ea : option_map (abs 23 (heap s2)) (assoc a0 d') = option_map (abs 23 (heap s)) (assoc a0 d)).
+  { rewrite <- (assoc_flds d' s2 Hd' a0), <- (assoc_flds d s Hd a0). now rewrite E. }
+  unfold cur_val in *. destruct (assoc a0 d) as [v|]; destruct (assoc a0 d') as [w|]; cbn [option_map] in Ea;
+    try discriminate; auto.
+  apply (f_equal (fun o => match o with Some x => x | None => ABad end)) in Ea. cbv beta iota in Ea.
+  rewrite (abs_nonref_eq 23 (heap s) v (vscalar_nonref _ Hcur)) in Ea.
+  now apply (abs_eq_scalar 22 (heap s2) w v Hcur).
+Qed.
+
+Section TransformBody.
+  Variable ct : ctable.
+  Local Opaque iterM thawed deepcopy.
+
+  Lemma transform_body_shape rec l p0 ps s inp :
+    mutate_value ct rec (mkmv (VRef l) VMissing false PNone None None None None (p0 :: ps) inp) s =
+    (value5 <- (if inp then ret (VRef l) else protect ct (VRef l));;
+     thawed_val ct value5 (negb inp)
+       (iterM (fun p : aid * fn =>
+                 l0 <- loc_of value5;; cur <- getattr_default ct l0 (fst p);; t <- apply_fn (snd p) cur;;
+                 (if is_missing t then ret tt else rec (KSetAttr l0 (fst p) t false false);;; ret tt))
+              (p0 :: ps));;; ret value5) s.
+  Proof.
+    unfold mutate_value. cbn [mv_new]. unfold mutate_value_body.
+    cbn [mv_new mv_old mv_replace mv_prepare mv_attrs mv_ctor mv_expected mv_transform mv_attr_transforms
+         mv_inplace is_missing negb andb orb].
+    cbn [bind ret get_heap thawed_val loc_of existsb].
+    rewrite ?bind_ret. reflexivity.
+  Qed.
+
+  Lemma transform_loop_at rec l' kwfn :
+    iterM (fun p : aid * fn =>
+             l0 <- loc_of (VRef l');; cur <- getattr_default ct l0 (fst p);; t <- apply_fn (snd p) cur;;
+             (if is_missing t then ret tt else rec (KSetAttr l0 (fst p) t false false);;; ret tt)) kwfn
+    = transform_all ct rec l' kwfn.
+  Proof. unfold transform_all. apply iterM_ext. intros [a0 g0]. reflexivity. Qed.
+
+  Lemma transform_body_inplace rec l p0 ps s c d k :
+    nth_error (heap s) l = Some (OInst c d) -> lookup_cls ct c = Some k ->
+    mutate_value ct rec (mkmv (VRef l) VMissing false PNone None None None None (p0 :: ps) true) s =
+    bind (transform_all ct rec l (p0 :: ps)) (fun _ => ret (VRef l)) s.
+  Proof.
+    intros Hl Hc. rewrite transform_body_shape. rewrite bind_ret. cbn [thawed_val negb].
+    rewrite transform_loop_at. now rewrite (bind_thawed_false ct l _ _ s c d k Hl Hc).
+  Qed.
+
+  Lemma transform_body_copy_ok rec l p0 ps s l' s2 :
+    deepcopy ct (VRef l) s = (Ok (VRef l'), s2) ->
+    mutate_value ct rec (mkmv (VRef l) VMissing false PNone None None None None (p0 :: ps) false) s =
+    bind (thawed ct l' true (transform_all ct rec l' (p0 :: ps))) (fun _ => ret (VRef l')) s2.
+  Proof.
+    intro Hdc. rewrite transform_body_shape. unfold protect. cbn [val_is_scalar negb].
+    rewrite (bind_ok _ _ _ _ _ Hdc). cbn [thawed_val]. now rewrite transform_loop_at.
+  Qed.
+End TransformBody.
+
+Section TransformTopHelper.
+  Variable ct : ctable.
+  Variable h0 : list obj.
+  Variables (l : loc) (c : cid) (d : list (aid * val)) (k : cls).
+  Variable s : state.
+  Hypothesis Hl : nth_error (heap s) l = Some (OInst c d).
+  Hypothesis Hc : lookup_cls ct c = Some k.
+  Hypothesis Hd : NoDup (map fst d).
+  Hypothesis Hfz : c_frozen k = false.
+  Hypothesis Hni : no_inval k.
+  Hypothesis Hfa : fail_at s = None.
+
+  Lemma spec_transform_top_kwfn x p ps :
+    spec_transform_top ct h0 x None (p :: ps) = sfold (spec_kwfn_step ct h0) (p :: ps) x.
+  Proof. reflexivity. Qed.
+
+  (* transform(_inplace=True, a=f, ...) *)
+  Theorem transform_top_inplace_refines p0 ps :
+    aok (absv (heap s) (VRef l)) = true ->
+    forallb (kwfn_ok k d) (p0 :: ps) = true ->
+    let h := mkh [] true true VMissing false None None (p0 :: ps) None in
+    let ah := mkah [] true true AMissing false None None (p0 :: ps) None in
+    match run_helper ct l HTransformTop h s with
+    | (Ok r, s') => r = VRef l /\
+                    spec_helper ct h0 (absv (heap s) (VRef l)) STransformTop ah = SOk (absv (heap s') (VRef l)) /\
+                    (forall i, i <> l -> nth_error (heap s') i = nth_error (heap s) i)
+    | (Err e, s') => spec_helper ct h0 (absv (heap s) (VRef l)) STransformTop ah = SErr e /\
+                     (forall i, i <> l -> nth_error (heap s') i = nth_error (heap s) i)
+    end.
+  Proof.
+    intros Hok Hkws h ah.
+    assert (Hspec : spec_helper ct h0 (absv (heap s) (VRef l)) STransformTop ah =
+                    sfold (spec_kwfn_step ct h0) (p0 :: ps) (absv (heap s) (VRef l))).
+    { rewrite (spec_helper_inplace_unfrozen ct h0 l c d k s Hl Hc Hfz STransformTop ah eq_refl).
+      rewrite (absv_recv l c d s Hl). unfold spec_unfrozen, ah. cbn [ah_fn ah_kwfn].
+      apply spec_transform_top_kwfn. }
+    rewrite Hspec. clear Hspec.
+    unfold run_helper, h. cbn [h_if negb h_inplace h_fn h_kwfn]. rewrite exec_XFUEL_mv.
+    rewrite (transform_body_inplace ct _ l p0 ps s c d k Hl Hc).
+    pose proof (transform_all_refines ct h0 l c k Hc Hfz Hni 37 (p0 :: ps) d s Hl Hd Hok Hfa Hkws) as H.
+    unfold bind. destruct (transform_all ct (exec ct 39) l (p0 :: ps) s) as [[u|e] s'].
+    - destruct H as [E1 [E2 _]]. unfold ret. auto.
+    - destruct H as [E1 [E2 _]]. auto.
+  Qed.
+
+  (* transform(a=f, ...) without _inplace, flat receiver *)
+  Theorem transform_top_copy_unfrozen p0 ps :
+    flat_fields (heap s) d -> c_dnc k = false -> c_post_copy k = None ->
+    forallb (kwfn_ok k d) (p0 :: ps) = true ->
+    let h := mkh [] false true VMissing false None None (p0 :: ps) None in
+    let ah := mkah [] false true AMissing false None None (p0 :: ps) None in
+    match run_helper ct l HTransformTop h s with
+    | (Ok r, s') => exists l', r = VRef l' /\ length (heap s) <= l' /\
+                    spec_helper ct h0 (absv (heap s) (VRef l)) STransformTop ah = SOk (absv (heap s') (VRef l')) /\
+                    (forall i, i < length (heap s) -> nth_error (heap s') i = nth_error (heap s) i)
+    | (Err e, s') => spec_helper ct h0 (absv (heap s) (VRef l)) STransformTop ah = SErr e /\
+                     (forall i, i < length (heap s) -> nth_error (heap s') i = nth_error (heap s) i)
+    end.
+  Proof.
+    intros Hflat Hdnc Hpc Hkws h ah.
+    assert (Hspec : spec_helper ct h0 (absv (heap s) (VRef l)) STransformTop ah =
+                    sfold (spec_kwfn_step ct h0) (p0 :: ps) (absv (heap s) (VRef l))).
+    { rewrite (spec_helper_copy ct h0 l c d s Hl STransformTop ah eq_refl eq_refl I).
+      rewrite (absv_recv l c d s Hl). unfold spec_unfrozen, ah. cbn [ah_fn ah_kwfn].
+      apply spec_transform_top_kwfn. }
+    rewrite Hspec. clear Hspec.
+    destruct (copy_twin_dict ct l c d k s Hl Hc Hd Hflat Hdnc Hfa Hpc)
+      as [l' [d' [s2 [Hdc [Hfresh [Hcell [Hd' [Habs [Hok' [Hfa2 [Hsame Hcur]]]]]]]]]]].
+    unfold run_helper, h. cbn [h_if negb h_inplace h_fn h_kwfn]. rewrite exec_XFUEL_mv.
+    rewrite (transform_body_copy_ok ct _ l p0 ps s l' s2 Hdc).
+    unfold bind. rewrite (thawed_unfrozen ct l' _ _ s2 c d' k Hcell Hc Hfz).
+    assert (Hkws' : forallb (kwfn_ok k d') (p0 :: ps) = true).
+    { apply forallb_forall. intros p Hp. rewrite forallb_forall in Hkws. specialize (Hkws p Hp).
+      unfold kwfn_ok in *. destruct (lookup_attr k (fst p)); [|discriminate].
+      apply andb_true_iff in Hkws. destruct Hkws as [H1 H2]. rewrite H1. cbn [andb].
+      now rewrite (Hcur (fst p) H2). }
+    pose proof (transform_all_refines ct h0 l' c k Hc Hfz Hni 37 (p0 :: ps) d' s2 Hcell Hd' Hok' Hfa2 Hkws') as H.
+    rewrite Habs in H.
+    destruct (transform_all ct (exec ct 39) l' (p0 :: ps) s2) as [[u|e] s'].
+    - destruct H as [E1 [E2 _]]. unfold ret. exists l'. split; [reflexivity|]. split; [exact Hfresh|]. split; [exact E1|].
+      intros i Hi. rewrite E2 by lia. now apply Hsame.
+    - destruct H as [E1 [E2 _]]. split; [exact E1|]. intros i Hi. rewrite E2 by lia. now apply Hsame.
+  Qed.
+End TransformTopHelper.
